@@ -168,6 +168,9 @@ impl Scripted {
         }
         if let Some((off, kind)) = st.fault {
             if st.pos >= off {
+                // single-fault injection: the error is reported once; a caller that (wrongly) retries
+                // finds the stream continuing, so a swallowed fault shows up as a wrong Ok, not a hang
+                st.fault = None;
                 self.c.faults_hit.fetch_add(1, Ordering::SeqCst);
                 return Step::Fault(kind);
             }
